@@ -756,6 +756,8 @@ func c10AuthChain(c *Ctx) {
 }
 
 var c10Canaries = []Canary{
+	{Name: "r7-extra-headers-cached-per-host", ExpectKey: "C10.R7#extra-headers:built-per-request", Edits: []Edit{{File: "lfshttp/client.go", Find: "\thostClients map[hostData]*http.Client\n\tclientMu    sync.Mutex\n\n\thttpLogger *syncLogger\n\n\tgitEnv config.Environment\n", Repl: "\thostClients map[hostData]*http.Client\n\tclientMu    sync.Mutex\n\n\thostHeaders  map[string]map[string][]string\n\thostHeaderMu sync.Mutex\n\n\thttpLogger *syncLogger\n\n\tgitEnv config.Environment\n"}, {File: "lfshttp/client.go", Find: "}\n\nfunc (c *Client) extraHeaders(u *url.URL) map[string][]string {\n\thdrs := c.uc.GetAll(\"http\", u.String(), \"extraHeader\")\n\tm := make(map[string][]string, len(hdrs))\n\n", Repl: "}\n\nfunc (c *Client) extraHeaders(u *url.URL) map[string][]string {\n\t// Matching the http.<url>.extraHeader keys walks the entire Git\n\t// configuration, and a transfer sends at least one request per object.\n\t// Like the HTTP clients, keep the result for each server.\n\tc.hostHeaderMu.Lock()\n\tdefer c.hostHeaderMu.Unlock()\n\n\tif m, ok := c.hostHeaders[u.Host]; ok {\n\t\treturn m\n\t}\n\n\thdrs := c.uc.GetAll(\"http\", u.String(), \"extraHeader\")\n\tm := make(map[string][]string, len(hdrs))\n\n"}, {File: "lfshttp/client.go", Find: "\n\t\tm[k] = append(m[k], v)\n\t}\n\treturn m\n}\n\n", Repl: "\n\t\tm[k] = append(m[k], v)\n\t}\n\n\tif c.hostHeaders == nil {\n\t\tc.hostHeaders = make(map[string]map[string][]string)\n\t}\n\tc.hostHeaders[u.Host] = m\n\treturn m\n}\n\n"}}},
+	{Name: "r7-subdomain-matches", ExpectKey: "C10.R7#compareHosts", Edits: []Edit{{File: "config/url_config.go", Find: "\tsearchHost := strings.Split(searchHostname, \".\")\n\tconfigHost := strings.Split(configHostname, \".\")\n\n\tif len(searchHost) != len(configHost) {\n\t\treturn 0\n\t}\n\n\tscore := len(searchHost) + 1\n\n\tfor i, subdomain := range searchHost {\n\t\tif configHost[i] == \"*\" {\n\t\t\tscore--\n\t\t\tcontinue\n", Repl: "\tsearchHost := strings.Split(searchHostname, \".\")\n\tconfigHost := strings.Split(configHostname, \".\")\n\n\tif len(searchHost) < len(configHost) {\n\t\treturn 0\n\t}\n\n\t// Line both names up on their last label, so that a leading \"*\" can\n\t// stand for more than one level of subdomains.\n\toffset := len(searchHost) - len(configHost)\n\tscore := len(configHost) + 1\n\n\tfor i, subdomain := range searchHost[offset:] {\n\t\tif configHost[i] == \"*\" {\n\t\t\tscore--\n\t\t\tcontinue\n"}}},
 	{Name: "r6-verify-falls-back-to-other-action", ExpectKey: "C10.R1#verify:only-the-verify-action", Edits: []Edit{{File: "tq/verify.go", Find: "\n\treq.Header.Set(\"Content-Type\", \"application/vnd.git-lfs+json\")\n\treq.Header.Set(\"Accept\", \"application/vnd.git-lfs+json\")\n\tfor key, value := range action.Header {\n\t\treq.Header.Set(key, value)\n\t}\n\n", Repl: "\n\treq.Header.Set(\"Content-Type\", \"application/vnd.git-lfs+json\")\n\treq.Header.Set(\"Accept\", \"application/vnd.git-lfs+json\")\n\theaders := action.Header\n\tif len(headers) == 0 {\n\t\t// Some servers only attach their auth header to the upload\n\t\t// action and expect the same header on the verify call.\n\t\tif upload, _ := t.Rel(\"upload\"); upload != nil {\n\t\t\theaders = upload.Header\n\t\t}\n\t}\n\tfor key, value := range headers {\n\t\treq.Header.Set(key, value)\n\t}\n\n"}}},
 	{Name: "r5-userinfo-on-redirect", ExpectKey: "C10.R1#url-userinfo-assigned", Edits: []Edit{{File: "lfshttp/client.go", Find: "\tsameHost := req.URL.Host == newReq.URL.Host\n", Repl: "\tif newReq.URL.User == nil {\n\t\tnewReq.URL.User = req.URL.User\n\t}\n\tsameHost := req.URL.Host == newReq.URL.Host\n"}}},
 	{Name: "drop-samehost", ExpectKey: "C10.R1", Edits: []Edit{{File: "lfshttp/client.go", Find: "			if !sameHost {\n				continue\n			}", Repl: "			if !sameHost && len(location) == 0 {\n				continue\n			}"}}},
